@@ -1305,6 +1305,7 @@ pub fn main(args: &util::Args) {
             effects: true,
             wildcard_arrays: false,
             nested_patterns: i % 4 == 1,
+            cov_shapes: i % 6 == 4,
             ..Default::default()
         };
         let (src, _) = crate::progen::gen_program(&mut rng, cfg);
